@@ -60,6 +60,25 @@ def run(ctx, pool, configs, why_filter=None):
     ctx.exhaustive = True
 
 
+def trace(ctx, n):
+    """code -> spec: random bags of up to 12 rules (+ twins) and up to 3 referrer rules, validated by Trace_Verdict."""
+    tr = os.path.join(ctx.work, "verdict-trace.ndjson")
+    d = ctx.vh(["drive-verdict", "n=%d" % n, "out=" + tr], timeout=3000)
+    nev, rejects = ctx.validate_trace("Trace_Verdict", tr, chunk=5000, procs=(2 if ctx.tier == "quick" else 8))
+    ctx.validated += nev - len(rejects)
+    ctx.evaluations += nev
+    ctx.nontrivial += d["nontrivial"]
+    ctx.extra["trace_events"] = nev
+    for smp in d["samples"] or []:
+        ctx.sample(smp)
+    if rejects:
+        events = vf.read_ndjson(tr)
+        for rj in rejects[:40]:
+            e = events[rj["l"] - 1]
+            ctx.report("%s on rules %s referrer rules %s: spec %s, code %s" % (e["entry"], e["texts"], e["src_texts"], rj["spec"], rj["code"]),
+                       {"reexec": ["drive-verdict"], "event": e, "seed": ctx.seed}, {"cause": "random-bag", "entry": e["entry"]})
+
+
 def replay(ctx, path):
     ctx.build()
     obj = json.load(open(path))
